@@ -93,7 +93,7 @@ fn victims() -> Vec<(&'static str, Op, bool)> {
         ("metadata", Op::Meta { key: 1 }, true),
         (
             "link_to",
-            Op::LinkTo(LinkSpec { key: Some(0), blob: 2, target: 0, relative: false, algo: Algo::Sha256, oneshot: true, pre_reads: vec![], declare: Declare::Exact, integ: IntegDecl::None }),
+            Op::LinkTo(LinkSpec { key: Some(0), blob: 2, target: 0, relative: false, algo: Algo::Sha256, oneshot: true, pre_reads: vec![], declare: Declare::Exact, integ: IntegDecl::None, dotdot_via_symlink: false, vectored_reads: false }),
             false,
         ),
         ("index_find_async", Op::IdxFind { key: 1 }, true),
